@@ -125,6 +125,10 @@ class ImageProvider(_Pipeline, Generic[_R]):
     def __rtruediv__(self, other) -> ImageProvider:
         return self.__class__(lambda scale: other / self(scale))
 
+    def __rsub__(self, other) -> ImageProvider:
+        # NOTE: not ``-self + other``; e.g. ``1 - mask`` is defined for boolean images.
+        return self.__class__(lambda scale: other - self(scale))
+
     def __neg__(self) -> ImageProvider:
         return self.__class__(lambda scale: -self(scale)).with_name(
             f"(-{self.__name__})"
@@ -292,6 +296,10 @@ class ImageConverter(_Pipeline):
 
     def __rtruediv__(self, other) -> ImageConverter:
         return self.__class__(lambda x, scale: other / self(x, scale))
+
+    def __rsub__(self, other) -> ImageConverter:
+        # NOTE: not ``-self + other``; e.g. ``1 - mask`` is defined for boolean images.
+        return self.__class__(lambda x, scale: other - self(x, scale))
 
     def __neg__(self) -> ImageConverter:
         return self.__class__(lambda x, scale: -self(x, scale))
